@@ -221,9 +221,10 @@ def evaluate__mod_operator(self: XPathToken, context: ta.ContextType = None) \
     try:
         if math.isinf(op2) and not math.isinf(op1) and op1 != 0:
             return op1 if self.parser.version != '1.0' else math.nan
-        elif isinstance(op1, int) and isinstance(op2, int):
-            return op1 % op2 if op1 * op2 >= 0 else -(abs(op1) % op2)
-        return op1 % op2  # type: ignore[operator]
+        # The result has the sign of the dividend (the % operator
+        # of int and float follows the sign of the divisor instead).
+        result: ta.NumericType = abs(op1) % abs(op2)
+        return -result if op1 < 0 else result
     except TypeError as err:
         raise self.error('FORG0006', err) from None
     except OverflowError as err:
